@@ -116,11 +116,11 @@ func (*UnquoteNode) IsStatic() bool {
 }
 
 func (*UnquoteNode) Class() *value.Class {
-	return value.MacroBoundaryNodeClass
+	return value.UnquoteNodeClass
 }
 
 func (*UnquoteNode) DirectClass() *value.Class {
-	return value.MacroBoundaryNodeClass
+	return value.UnquoteNodeClass
 }
 
 func (n *UnquoteNode) Inspect() string {
